@@ -406,7 +406,7 @@ def z3_truth(v):
         return z3.BoolVal(bool(v))
     if isinstance(v, (tuple, list)):
         return z3.BoolVal(len(v) > 0)
-    if isinstance(v, (ExcVal, Opaque)) or type(v).__name__ in ("PyRecord", "SuccessV", "FailureV", "FuncV", "ClassV", "BoundM"):
+    if isinstance(v, (ExcVal, Opaque)) or type(v).__name__ in ("PyRecord", "SuccessV", "FailureV", "FuncV", "ClassV", "BoundM", "ClassOfV", "NameOfV"):
         return z3.BoolVal(True)
     if isinstance(v, EmptyColl):
         return z3.BoolVal(False)
